@@ -18,6 +18,7 @@ RDiv(a, b) == Norm(a[1] * b[2], a[2] * b[1])
 RNeg(a) == <<-a[1], a[2]>>
 REq(a, b) == a[1] * b[2] = b[1] * a[2]
 RLt(a, b) == a[1] * b[2] < b[1] * a[2]
+RLe(a, b) == a[1] * b[2] <= b[1] * a[2]
 RZero == <<0, 1>>
 ROne == <<1, 1>>
 RHalf == <<1, 2>>
